@@ -16,6 +16,12 @@
       CCreate    AddFinalizeActivateMarker on a fresh / an existing denom
       CGovParams UpdateParams by the governance account / anybody else
       CAllowance whose fee allowance an accepted GrantAllowance created
+      CSupply    AddAccess / DeleteAccess on markers whose bank supply differs from the recorded one
+                 (floating markers after burns, mints, governance supply changes; finalized markers
+                 with pre-existing coins), with the recorded supply, the bank supply and the
+                 caller's balance as numbers
+      CIbc       one MsgIbcTransferRequest through the marker message server of a second marker
+                 keeper over the app's stores whose ibc transfer server escrows the token
       CCoverage  which endpoints the run exercised (every operation of [all_ops] must be there)
 
     "corr:*"  the model (Marker/Access.v, Marker/Authz.v) and the implementation disagree;
@@ -71,6 +77,8 @@ Inductive case :=
 | CCreate (exists_already : bool) (caller_rights_on_existing : N) (ok : bool) (after : status) (manager_after : bool)
 | CGovParams (is_gov ok : bool)
 | CAllowance (of_marker_account of_administrator : bool)
+| CSupply (c : cfg) (sf : supply_facts) (o : op) (ok : bool) (after : status)
+| CIbc (x : xfer) (ok : bool) (escrow_delta from_delta : Z) (grant_after : option grant)
 | CCoverage (ops : list op).
 
 (** Coins are compared as maps. *)
@@ -388,6 +396,32 @@ Definition check_allowance (of_marker of_admin : bool) : list string :=
   tag of_marker "corr:allowance_not_granted_by_the_marker_account" ++
   tag (negb of_admin) "corr:allowance_granted_by_the_administrator_account".
 
+(** *** the whole-supply escape on markers whose bank supply is not the recorded one *)
+Definition check_supply (c : cfg) (sf : supply_facts) (o : op) (ok : bool) (after : status) : list string :=
+  check_access (with_supply c sf) o ok after ++
+  (if ok && negb (has RAdmin (c_rights c)) && negb (c_manager c) && negb (c_gov c) then
+     tag (Z.eqb (sf_balance sf) (sf_record sf) && negb (Z.eqb (sf_record sf) 0))
+         "prop:access_list_changed_without_admin_by_a_holder_of_less_or_more_than_the_recorded_supply"
+   else []).
+
+(** *** one ibc transfer *)
+Definition check_ibc (x : xfer) (ok : bool) (desc dfrom : Z) (ga : option grant) : list string :=
+  let m := x_msg x in
+  let model := ibc_transfer x in
+  tag (Bool.eqb ok (match model with Some _ => true | None => false end)) "corr:ibc_transfer_decision" ++
+  tag (Z.eqb desc (if ok then m_amt m else 0) && Z.eqb dfrom (if ok then m_amt m else 0)) "corr:ibc_transfer_balances" ++
+  tag (ogrant_eqb ga (match model with Some g => g | None => x_grant x end)) "corr:ibc_transfer_stored_grant" ++
+  (if ok || negb (Z.eqb desc 0) then
+     tag (is_restricted (x_type x) && has RTransfer (x_rights x)) "prop:ibc_transfer_without_transfer_right" ++
+     (if x_self x then []
+      else
+        tag (grant_accepts (x_grant x) m) "prop:ibc_transfer_out_of_another_account_without_its_grant" ++
+        match x_grant x with
+        | Some g => tag (grant_after_use_ok g m ga) "prop:grant_not_reduced_by_the_use"
+        | None => []
+        end)
+   else []).
+
 Definition check_coverage (ops : list op) : list string :=
   tag (forallb (fun o => existsb (op_eqb o) ops) all_ops) "corr:endpoint_of_the_table_not_exercised".
 
@@ -403,6 +437,8 @@ Definition check (c : case) : list string :=
   | CCreate ex rs ok after mgr => check_create ex rs ok after mgr
   | CGovParams g ok => check_gov_params g ok
   | CAllowance m a => check_allowance m a
+  | CSupply c sf o ok after => check_supply c sf o ok after
+  | CIbc x ok de df ga => check_ibc x ok de df ga
   | CCoverage ops => check_coverage ops
   end.
 
